@@ -382,3 +382,39 @@ func unwrapLocal(v ssa.Value) ssa.Value {
 	}
 	return v
 }
+
+// helperResult: if v is the (extracted) result of a direct call to a module
+// function with a single return statement, return the expression that
+// function returns in that position (in the callee's own values); else v.
+func helperResult(v ssa.Value) ssa.Value {
+	var call *ssa.Call
+	idx := 0
+	switch x := v.(type) {
+	case *ssa.Extract:
+		c, ok := x.Tuple.(*ssa.Call)
+		if !ok {
+			return v
+		}
+		call, idx = c, x.Index
+	case *ssa.Call:
+		call = x
+	default:
+		return v
+	}
+	callee := call.Common().StaticCallee()
+	if callee == nil || callee.Blocks == nil || !isModFunc(callee) {
+		return v
+	}
+	var ret *ssa.Return
+	n := 0
+	for _, b := range callee.Blocks {
+		if r, ok := lastInstr(b).(*ssa.Return); ok {
+			ret = r
+			n++
+		}
+	}
+	if n != 1 || idx >= len(ret.Results) {
+		return v
+	}
+	return retResults(ret)[idx]
+}
